@@ -174,6 +174,8 @@ pub fn narrow_key(case: &BuilderCase, i: u64, bits: u32) -> u128 {
     let c = (case.key_seed.rotate_left(29) as u128) | ((case.key_seed.rotate_left(3) as u128) << 64);
     let x = match case.key_kind.as_str() {
         "scatter" => (i as u128).wrapping_mul(m).wrapping_add(c),
+        // keys that differ only in their upper half (2^(bits/2) of them)
+        "high" if bits >= 64 => ((i as u128) << (bits / 2)) | (c & ((1u128 << (bits / 2)) - 1)),
         _ => i as u128,
     };
     if bits >= 128 {
@@ -235,6 +237,8 @@ fn odd_mult(seed: u64) -> u64 {
 pub fn int_key(case: &BuilderCase, i: u64) -> u64 {
     match case.key_kind.as_str() {
         "scatter" => i.wrapping_mul(odd_mult(case.key_seed)).wrapping_add(case.key_seed.rotate_left(17)),
+        // keys that differ only in their upper 32 bits
+        "high" => (i << 32) | (case.key_seed & 0xffff_ffff),
         _ => i,
     }
 }
@@ -948,7 +952,7 @@ fn base_case(rng: &mut Rng, mode: &str, n: usize, iters: usize) -> BuilderCase {
     let combo = if mode == "func" { rng.pick(FUNC_COMBOS).to_string() } else { rng.pick(FILTER_COMBOS).to_string() };
     let wb = combo_word_bits(&combo);
     let n = n.min(combo_max_n(&combo));
-    let key_kind = if matches!(combo_key(&combo), "str" | "string") { rng.pick(&["plain", "prefix"]).to_string() } else { rng.pick(&["range", "scatter"]).to_string() };
+    let key_kind = if matches!(combo_key(&combo), "str" | "string") { rng.pick(&["plain", "prefix"]).to_string() } else { rng.pick(&["range", "scatter", "scatter", "high"]).to_string() };
     let val_kind = rng.pick(&["identity", "identity", "random", "random", "zero", "allones"]).to_string();
     let (hint, hint_kind) = draw_hint(rng, n, true);
     BuilderCase {
